@@ -35,6 +35,33 @@ claim('C14', 'DESIGN.md 4/C14',
       'Bounded: 2 types (PairTable) / 3 types (ValueTable) with replay, 3 types invariants only; payload = 2-element list; trusted: TLC, '
       'the walker, the projection (identity via `is`).')
 
+claim('C15', 'DESIGN.md 4/C15',
+      'TLA+ spec DensDiam.tla (setter loops with the derived tables as stored state) model-checked with TLC; exported state graph '
+      'replayed on the real Density/Diameter for several concretisations of the values (scaled and nearly-equal families); recorded '
+      'traces validated against Trace_DensDiam.tla',
+      'Exhaustive TLC exploration of all assignment/re-assignment histories for 3 (4 in thorough) types with PairOK, SiteOK, TotalOK, '
+      'SigmaOK, VolumeOK as invariants on the STORED derived entries; every exported transition and all short paths replayed on the '
+      'real classes; suite and driver traces validated by TLC.',
+      'Bounded: 3-4 types, value set of three values per concretisation; float comparison 1e-12 relative; trusted: TLC, walker, observer.')
+
+claim('C07', 'DESIGN.md 4/C07',
+      'TLA+ spec Domain.tla (constructor/setter machine with exact monomial spacings; MatrixArray transform guard machine) model-checked '
+      'with TLC; every setter history replayed on real Domain objects for several scales, the transform statements decided on basis '
+      'vectors against the dense matrices of the transform pair defined in the spec; Domain traces validated against Trace_Domain.tla',
+      'TLC checks Conjugate, GridSize, NotStale, FreshEquivalent, RoundTripIsIdentity on all setter histories up to the bound and the '
+      'transform guard as an action property; conformance in both directions binds the real Domain to it.',
+      'Bounded: listed lengths/spacings x scales, MaxSteps setter calls; transforms decided on a full basis for n <= 256, on 52 basis '
+      'vectors above; trusted: TLC, harness/refmath.py (dense formula), numpy.')
+
+claim('C08', 'DESIGN.md 4/C08',
+      'discrete transform pair and its prefactors defined in the TLA+ spec Domain.tla as exact monomials (TLC: ForwardIs4Pi, '
+      'BackwardIs1Over2Pi2, RoundTripIsIdentity); real coefficient arrays and both transforms compared absolutely with the specified '
+      'dense matrices on every Domain state TLC enumerates; first-order convergence to the closed forms by refinement study '
+      '(model validation)',
+      'The prefactor clause is decided by TLC + conformance (a compensating change of both prefactors violates two named statements); '
+      'the convergence clause is validated numerically on the analytic families for the specified formula and the code.',
+      'Convergence is real analysis: validated on Gaussian/Yukawa/exponential/sphere families, n = 128..2048 at r_max = 25.6, not proved.')
+
 ALL = ['C%02d' % i for i in range(1, 19)]
 
 
@@ -94,7 +121,7 @@ def main():
         print('MANIFEST.json written (jsonschema not available, not validated)')
 
 
-HOOK_COMMITS = []
+HOOK_COMMITS = ['d61a665']
 
 if __name__ == '__main__':
     main()
